@@ -31,9 +31,24 @@ FAMILIES = {
     'KPERF_TI': ('PERF_THD_Data', 'single', 3, 0, 0xffff, r'\bKPERF_TI_[A-Z]+\b', DW.KPERF_TI, 'perf.KperfTiState', None),
     'CALLSTACK': ('PERF_STK_UHdr', 'single', 0, 0, M64, r'\bCALLSTACK_[A-Z0-9_]+\b', DW.CALLSTACK, 'perf.CallstackFlag', None),
     'RTLD': ('DBG_DYLD_TIMING_DLOPEN', 'se', 2, 0, M64, r'\bRTLD_[A-Z]+\b', DW.RTLD, 'dyld.RtldFlag', None),
+    'MSG@nocancel': ('BSC_recvfrom_nocancel', 'se', 3, 0, M64, r'\bMSG_[A-Z0-9_]+\b', DW.MSG, 'bsd.SocketMsgFlags', None),
+    'ACCESS@faccessat': ('BSC_faccessat', 'se', 2, 0, M64, r'\b[FXWR]_OK\b', DW.ACCESS, 'bsd.BscAccessFlags', 'F_OK'),
+    'AST@idle': ('MACH_IDLE', 'single', 3, 0, M64, r'\bAST_[A-Z_]+\b', DW.AST, 'mach.AsynchronousSystemTrapsReason', 'AST_NONE'),
+    'VM_PROT@external': ('RealFaultAddressExternal', 'single', 1, 8, 0xff, r'\bVM_PROT_[A-Z_]+\b', DW.VM_PROT, 'mach.VmProtection', 'VM_PROT_NONE'),
+    'VM_PROT@sharedcache': ('RealFaultAddressSharedCache', 'single', 1, 8, 0xff, r'\bVM_PROT_[A-Z_]+\b', DW.VM_PROT, 'mach.VmProtection', 'VM_PROT_NONE'),
 }
 OPEN_SITES = {'OPEN': ('BSC_open', 1), 'OPEN@openat': ('BSC_openat', 2), 'OPEN@nocancel': ('BSC_open_nocancel', 1)}
 STAT_SITES = {'STAT': ('BSC_chmod', 1), 'STAT@fchmod': ('BSC_fchmod', 1), 'STAT@mkdir': ('BSC_mkdir', 1)}
+# every further (decoder, word) at which a family is shown, from the frozen site table mc/flagsites.json (tools/gen_flagsites.py):
+# these get the Hamming balls of radius 2 around no-bits and all-bits instead of every subset
+OPEN_SITES_2 = {'OPEN@openat_nocancel': ('BSC_openat_nocancel', 2), 'OPEN@open_dprotected_np': ('BSC_open_dprotected_np', 1),
+                'OPEN@guarded_open_np': ('BSC_guarded_open_np', 3), 'OPEN@guarded_open_dprotected_np': ('BSC_guarded_open_dprotected_np', 3),
+                'OPEN@openbyid_np': ('BSC_openbyid_np', 2), 'OPEN@sem_open': ('BSC_sem_open', 1), 'OPEN@shm_open': ('BSC_shm_open', 1)}
+STAT_SITES_2 = {'STAT@fchmodat': ('BSC_fchmodat', 2), 'STAT@mkdirat': ('BSC_mkdirat', 2), 'STAT@mkfifo': ('BSC_mkfifo', 1),
+                'STAT@sem_open': ('BSC_sem_open', 2), 'STAT@shm_open': ('BSC_shm_open', 2)}
+OPEN_SITES.update(OPEN_SITES_2)
+STAT_SITES.update(STAT_SITES_2)
+NEEDS_CREAT = {'BSC_sem_open': 1, 'BSC_shm_open': 1}     # the mode is shown only when this word has O_CREAT
 BASE_S = (0x1111, 0x2222, 0x3333, 0x4444)
 BASE_E = (0, 0x55, 0x66, 0x77)
 
@@ -159,6 +174,8 @@ def judge_stat(site, w):
     decoder, idx = STAT_SITES[site]
     s = list(BASE_S)
     s[idx] = w
+    if decoder in NEEDS_CREAT:
+        s[NEEDS_CREAT[decoder]] = 0x200
     try:
         txt = render(decoder, 'se', tuple(s))
     except Exception as ex:
@@ -226,8 +243,8 @@ class C11(Check):
     level = 'exploration'
     rule = ('per symbolic family, through a decoder that shows it: every subset of the declared bits plus two undeclared bits '
             '(MSG_ and AST_: Hamming balls of radius 3 around 0 and around all-bits in quick, the full 2^22 / 2^24 in thorough); '
-            'open flags (3 call sites): every subset of 12 flag bits + 2 access-mode bits + 2 undeclared; file modes (3 call '
-            'sites): every subset of the 12 permission bits x all 16 values of the S_IFMT field x 1 undeclared bit; packed fields '
+            'open flags (3 call sites; 7 further sites from the frozen site table with Hamming balls of radius 2): every subset of 12 flag bits + 2 access-mode bits + 2 undeclared; file modes (3 call '
+            'sites; 5 further sites likewise): every subset of the 12 permission bits x all 16 values of the S_IFMT field x 1 undeclared bit; packed fields '
             '(VM_PROT byte: all 256 values, also as shown by page-fault traces in pairs of windows; KPERF_TI 16-bit field); ioctl: all 2^16 values of the high half x 4 low halves and of '
             'the low half x 8 high halves. Oracle: shown names subset of Darwin names whose value intersects the word; every '
             'declared name (frozen enum names) whose Darwin bit is set is shown; multi-bit fields show exactly Darwin\'s name for '
@@ -320,7 +337,7 @@ class C11(Check):
             _, site, mode = desc
             dec = declared('bsd.BscOpenFlags')
             bits = sorted({DW.OPEN_FLAGS[n] for n in dec if n in DW.OPEN_FLAGS}) + [0x80, 1 << 40]
-            for w0 in bit_subsets(bits):
+            for w0 in (bit_subsets(bits) if site not in OPEN_SITES_2 else sorted(set(bit_subsets(bits, 2)))):
                 w = w0 | mode
                 bad = judge_open(site, w)
                 acc.case(nontrivial=bin(w0).count('1') >= 2, transitions=2)
@@ -329,7 +346,7 @@ class C11(Check):
         elif kind == 'stat':
             _, site, t = desc
             perm = sorted(set(DW.MODE_BITS.values()))
-            for w0 in bit_subsets(perm):
+            for w0 in (bit_subsets(perm) if site not in STAT_SITES_2 else sorted(set(bit_subsets(perm, 2)))):
                 for extra in (0, 1 << 20):
                     w = w0 | (t << 12) | extra
                     bad = judge_stat(site, w)
